@@ -314,6 +314,44 @@ func genC11(g *Rng, tier string, emit func(Op)) {
 				emit(nrOp(kp, proofDTree(pd), ctx, nonce, "foreign-witness-via-secret-key", "reject").with("fkey", "C11/foreign-witness-via-secret-key"))
 			}
 		}
+		// the soundness side of the verifier's guess (known finding): a REVOKED holder whose credential
+		// has a hidden attribute of value 1 (the encoding of an empty string) proves non-revocation
+		// with the trivial witness (u = nu, e = 1), which is valid for every accumulator: that
+		// attribute gets the small randomiser, the real revocation attribute a full-size one, so the
+		// verifier's guess falls on the attribute of value 1
+		{
+			ir := newIssuerRev(g, kp)
+			wA := ir.witnessFor()
+			credA := issueCred(kp, randSecret(g), []*big.Int{bi(1), g.bits(100), wA.E})
+			ir.revoke(wA.E)
+			sacc, err := ir.acc.Sign(kp.sk)
+			if err == nil {
+				if _, err = sacc.UnmarshalVerify(pk); err == nil {
+					trivial := &revocation.Witness{U: new(big.Int).Set(ir.acc.Nu), E: bi(1), SignedAccumulator: sacc}
+					b, err := credA.CreateDisclosureProofBuilder(nil, nil, false)
+					if err != nil {
+						panic(err)
+					}
+					_, _, attrRand := b.VerifRandomizers()
+					rnd := g.bits(500)
+					attrRand[1] = rnd
+					attrRand[2], attrRand[3] = g.exactBits(592), g.exactBits(592)
+					ctx, nonce := g.bits(256), g.bits(80)
+					contribs, err := b.Commit(map[string]*big.Int{"secretkey": g.exactBits(592)})
+					if err != nil {
+						panic(err)
+					}
+					if nrContribs, commit, err := revocation.NewProofCommit(pk, trivial, rnd); err == nil {
+						c := gabi.VerifCreateChallenge(ctx, nonce, append(contribs, nrContribs...), false)
+						pd := b.CreateProof(c).(*gabi.ProofD)
+						nr := commit.BuildProof(c)
+						delete(nr.Responses, "alpha")
+						pd.NonRevocationProof = nr
+						emit(nrOp(kp, proofDTree(pd), ctx, nonce, "revoked-holder-trivial-witness", "reject").with("fkey", "C11/revocation-attr-chosen-by-prover"))
+					}
+				}
+			}
+		}
 		// honest proofs whose non-revocation randomiser sits at the ends of its range [0, 2^579)
 		// (NewProofRandomizer can return any of these): all must be accepted
 		{
